@@ -120,7 +120,8 @@ Qed.
 Lemma checkT_after_sweep s : TA s -> checkT (fst (sweep_timeouts s)) = (now s + 1)%Z.
 Proof. intros T. apply (sweep_timeouts_TA s T). Qed.
 
-(* ------------------------------------------------------------------ C05 (d) *)
-(* a record that is dead (tombstoned or freed) and allocated stays dead under every core step *)
-Lemma nframe_sweep_dead s r : TA s -> r < next s -> tdead s r -> True.
-Proof. auto. Qed.
+(* helpers for concrete runs *)
+Lemma no_panic_nil : ~ has_panic [].
+Proof. intros (site & []). Qed.
+Lemma no_panic_cons e ev : (forall site, e <> EPanic site) -> ~ has_panic ev -> ~ has_panic (e :: ev).
+Proof. intros A B (site & [E|I]); [apply (A site); auto|apply B; exists site; auto]. Qed.
